@@ -24,6 +24,11 @@ class Fold:
         self.done = set()
         self.intflag = intflag  # z3 Bool: every element is an int (then the Python sum is an int)
         ctx.assume(self.F(z3.IntVal(0)) == 0)
+        B = getattr(ctx.E, "bounded", None)
+        if B is not None:
+            # refutation mode: at most B items, so the fold is unfolded completely (no lemma is needed then)
+            for k in range(B):
+                self.unfold(z3.IntVal(k))
 
     def unfold(self, k):
         """instantiate F(k+1) = F(k) + body(k) for 0 <= k < n"""
@@ -85,6 +90,8 @@ def spec_lemma(spec, name, *args):
     """invoke a fold lemma (schema proved by induction on every run, see lemmas.py) as an assumption"""
     from . import lemmas
 
+    if getattr(spec.ctx.E, "bounded", None) is not None and name in ("ext", "const", "scale", "mono", "member", "add", "member_at"):
+        return z3.BoolVal(True)  # folds are fully unfolded in refutation mode
     args = [a.r if isinstance(a, N) else a for a in args]
     spec.ctx.assume(lemmas.instantiate(spec.ctx, name, *args))
     return z3.BoolVal(True)
@@ -141,7 +148,8 @@ class Locals:
         try:
             return self._d[k]
         except KeyError:
-            raise AttributeError(k)
+            # the code no longer has the local the invariant speaks about: the contract does not cover this code
+            raise Unsupported("loop invariant mentions local %r which the function no longer defines" % k)
 
     def raw(self, k):
         return self._raw[k]
@@ -350,8 +358,13 @@ def symbolic_sum(I, it, start):
         ctx.solver.pop()
         ctx.pc = saved_pc
     # facts learned about the generic element (shape invariants of loaded fields) hold for every index
+    B = getattr(ctx.E, "bounded", None)
     if learned:
-        ctx.assume(z3.ForAll([j], z3.Implies(z3.And(0 <= j, j < n), z3.And(*learned))))
+        if B is not None:
+            for k in range(B):
+                ctx.assume(z3.Implies(n > k, z3.substitute(z3.And(*learned), (j, z3.IntVal(k)))))
+        else:
+            ctx.assume(z3.ForAll([j], z3.Implies(z3.And(0 <= j, j < n), z3.And(*learned))))
     term = sv.t
 
     def body(k):
@@ -365,7 +378,11 @@ def symbolic_sum(I, it, start):
     # a sum is finite here (elements finite by shape); its int-ness is left open unless start decides it
     allint = fresh("sum_is_int", z3.BoolSort())
     res = SV(Z.mk_num(allint, total), TNum())
-    ctx.assume(z3.ForAll([j], z3.Implies(z3.And(0 <= j, j < n), Z.is_finite(z3.substitute(term, (j, j))))))
+    if B is not None:
+        for k in range(B):
+            ctx.assume(z3.Implies(n > k, Z.is_finite(z3.substitute(term, (j, z3.IntVal(k))))))
+    else:
+        ctx.assume(z3.ForAll([j], z3.Implies(z3.And(0 <= j, j < n), Z.is_finite(z3.substitute(term, (j, j))))))
     if isinstance(start, int) and start == 0:
         # sum of zero elements is the int 0
         ctx.assume(z3.Implies(n == 0, allint))
